@@ -415,3 +415,30 @@ func stdDocSpec(tier string) gen.DocSpec {
 	}
 	return gen.DocSpec{MaxNodes: 4, Keys: gen.KAB, Scalars: gen.S5, MaxArr: 3}
 }
+
+func jsonRaw(p *gen.Path) json.RawMessage {
+	b, _ := json.Marshal(p)
+	return json.RawMessage(b)
+}
+
+// maskOf reads a result back as a bitmask of positions of members (in order); ok=false if it
+// is not a sub-sequence.
+func maskOf(values, members []interface{}) (mask uint, ok bool) {
+	pos := 0
+	for _, v := range values {
+		found := false
+		for pos < len(members) {
+			if sameJSON(members[pos], v) {
+				mask |= 1 << uint(pos)
+				pos++
+				found = true
+				break
+			}
+			pos++
+		}
+		if !found {
+			return 0, false
+		}
+	}
+	return mask, true
+}
